@@ -110,3 +110,28 @@ def geometry_scan(n_max, rates=(0.03, 0.05, 0.01), near=1e-6):
             scanned += stop - n
             n = stop
     return None, scanned, calls
+
+
+def sparse_result(mk, tries=300, tag=""):
+    """A Bloom / counting-Bloom filter reached through the public API only whose elements_added is 0 although
+    cells are set: the intersection of two single-key filters that share a position (intersection and union
+    set elements_added to estimate_elements(), which truncates to 0 when very few cells are set).
+    mk() builds an empty filter.  Returns (filter, (key_a, key_b)) or None."""
+    for i in range(tries):
+        ka, kb = "sa%s%d" % (tag, i), "sb%s%d" % (tag, i)
+        a, b = mk(), mk()
+        a.add(ka)
+        b.add(kb)
+        r = a.intersection(b)
+        if r is not None and r.elements_added == 0 and any(r.bloom):
+            return r, (ka, kb)
+    return None
+
+
+def net_zero(obj, tag="nz"):
+    """drive a count-min style sketch to elements_added == 0 with non-zero bins: remove from ANOTHER key as
+    much as was added in total (legal calls; the sketch's total is a signed net count)"""
+    total = obj.elements_added
+    if total > 0:
+        core.call(obj.remove, "%s-other" % tag, total)
+    return obj.elements_added == 0
